@@ -765,6 +765,7 @@ var malformedFixed = []string{
 	"\xc3\xa9", "1+\xc3\xa9", "\xef\xbc\x91", "1\xc2\xa0+2", "\xff", "1+\x80", "\xe2\x88\x922", "2\xc3\x972", "2\xe2\x81\x84",
 	"(1)", "(1+2)", "1+(2*3)", "2**3", "1e5", "1.5", "1,5", "0.5", ".5", "1.", "5!", "5%2", "1<<2", "1&1", "1|1", "~1", "1=1",
 	"1 + 2 = 3", "0x1.8p1", "1e", "0e0", "inf", "NaN", "1i", "'1'", "\"1\"",
+	"2 - 5 ^", "5 - 0 /", "5 - 3 *", "2*3^2^", "2 - 3*4 ^", "2^3^", "7 + 2 * 3 ^ 2 ^",
 	"1/0", "1/0+", "1/0+*", "0/0", "1/-0", "1/0x0", "1/0b0", "1/00", "2^3/0", "1/0/0", "1+1/0", "1/0 2", "1/0 x", "1/0^0", "1/0^1", "0^0", "0^-1",
 }
 
